@@ -655,6 +655,12 @@ def nontrivial(case, obs):
     if k == "enc":
         return "edges" in obs and len(obs["edges"]) >= 4
     if k == "hist":
+        if case.get("supp"):
+            # suppress_unifurcations(update_bipartitions=True) really removed a node from an encoded tree
+            ne = [len(o["edges"]) for o in obs["steps"] if "edges" in o]
+            return any(case["steps"][o["step"]][0] == "supp" and "edges" in o and o["step"] > 0
+                       and len(o["edges"]) < len(obs["steps"][o["step"] - 1].get("edges", []))
+                       for o in obs["steps"]) and max(ne or [0]) >= 4
         return sum(1 for o in obs["steps"] if "saved" in o and len(o["saved"]) >= 2) >= 1 and \
             any(len(o.get("edges", [])) >= 4 for o in obs["steps"])
     if k == "from":
@@ -732,6 +738,8 @@ def gen_cases(ctx, rng, n_enc, n_from, n_bits, n_bip):
         cases.append(gen_from_case(rng))
     for i in range(max(2, n_enc // 3)):
         cases.append(c01_hist.gen_hist_case(rng, gen_ns_params, force_ss=(i % 5 == 0)))
+    for _ in range(max(2, n_enc // 8)):
+        cases.append(c01_hist.gen_supp_case(rng, gen_ns_params))
     for _ in range(n_bits):
         cases.append(gen_bits_case(rng))
     for _ in range(n_bip):
@@ -740,6 +748,8 @@ def gen_cases(ctx, rng, n_enc, n_from, n_bits, n_bip):
 
 
 def gen_hist_case(rng):
+    if rng.random() < 0.35:
+        return c01_hist.gen_supp_case(rng, gen_ns_params)
     return c01_hist.gen_hist_case(rng, gen_ns_params, force_ss=rng.random() < 0.2)
 
 
@@ -748,7 +758,7 @@ def search(ctx, budget_s):
     rng = random.Random(ctx.seed + 4242)
     n = 0
     hrng = random.Random(ctx.seed + 77)
-    first = [gen_hist_case(hrng) for _ in range(60)] + [gen_forced(hrng, "kw") for _ in range(60)]
+    first = [gen_hist_case(hrng) for _ in range(90)] + [gen_forced(hrng, "kw") for _ in range(60)]
     for case in itertools.chain(first, exhaustive_cases(5), iter(lambda: None, 1)):
         if time.time() - t0 > budget_s or n > 60000:
             break
@@ -772,8 +782,9 @@ def search(ctx, budget_s):
 def gen_overwritten():
     """True when coq/Gen/Bipartition.v is not what the translator derives from this run's source"""
     import os
-    from dv import gen_bipartition, gen_bipartition_obj
-    for mod, name in ((gen_bipartition, "Bipartition.v"), (gen_bipartition_obj, "BipartitionObj.v")):
+    from dv import gen_bipartition, gen_bipartition_obj, gen_supp_obj
+    for mod, name in ((gen_bipartition, "Bipartition.v"), (gen_bipartition_obj, "BipartitionObj.v"),
+                      (gen_supp_obj, "SuppObj.v")):
         try:
             want = mod.generate(core.REPO)
         except Exception:
@@ -794,7 +805,7 @@ def run(tier, seed, replay=None):
         "from_split_bitmasks / Bipartition construction and predicates on rose trees; tied by this correspondence run",
         "the bit-level functions are the translated ones (coq/Gen/BitFns.v, regenerated from the source each run)",
         "encode_bipartitions (loop body, flags, second pass), compile_split_bitmask & co., the Bipartition predicates, taxon_bitmask / all_taxa_bitmask are ALSO translated from the AST on every run (coq/Gen/Bipartition.v) and proved equal to the model (Props/C01Gen.v); trusted there: the primitive semantics of coq/Model/C01GenPrims.v",
-        "object level (coq/Model/C01ObjModel.v): Bipartition objects are store cells; edges, Tree.bipartition_encoding and the lists returned by earlier encodings refer to cells; encode_bipartitions / update_bipartitions (four keywords) are transcribed as to which object is created, bound, written in place and returned, and this reading is ALSO generated from the source's statements (py/dv/gen_bipartition_obj.py -> coq/Gen/BipartitionObj.v, proved equal to the model in Props/C01Gen.v; trusted there: coq/Model/C01ObjPrims.v - heap primitives, the property getter Edge.bipartition, map() as a lazy iterator consumed by list()/for); every other tree operation is modelled as a change of structure and rooting flag that leaves Edge._bipartition bindings and Bipartition attributes alone (the only writers in the library are encode_bipartitions and from_split_bitmasks on its own new tree; the history cases re-observe every object after every step)",
+        "object level (coq/Model/C01ObjModel.v): Bipartition objects are store cells; edges, Tree.bipartition_encoding and the lists returned by earlier encodings refer to cells; encode_bipartitions / update_bipartitions (four keywords) are transcribed as to which object is created, bound, written in place and returned, and this reading is ALSO generated from the source's statements (py/dv/gen_bipartition_obj.py -> coq/Gen/BipartitionObj.v, proved equal to the model in Props/C01Gen.v; trusted there: coq/Model/C01ObjPrims.v - heap primitives, the property getter Edge.bipartition, map() as a lazy iterator consumed by list()/for; the statements of suppress_unifurcations that fill and use bipartitions_to_delete are generated too: py/dv/gen_supp_obj.py -> coq/Gen/SuppObj.v, trusted coq/Model/C01SuppPrims.v - a set keyed by id() or by Bipartition.__hash__/__eq__, truthiness); suppress_unifurcations(update_bipartitions=True) is transcribed as the filter of the stored list by object identity (obj_supp; the structure it leaves is taken from the observation); every other tree operation is modelled as a change of structure and rooting flag that leaves Edge._bipartition bindings and Bipartition attributes alone (the only writers in the library are encode_bipartitions and from_split_bitmasks on its own new tree; the history cases re-observe every object after every step)",
         "post-order stack traversal of encode_bipartitions is modelled by structural recursion (traversal order is C15's subject)",
         "every leaf taxon is a member of the tree's namespace (taxon_bitmask of a non-member raises KeyError)",
         "from_split_bitmasks: the leaf-to-root climb is modelled as the root-to-leaf descent to the deepest node covering the split (same node on masks that grow towards the root)",
@@ -809,12 +820,12 @@ def run(tier, seed, replay=None):
         print("oracle:", oracle(case, obs))
         print("model:", core.show_cases("C01", HEADER, "xcase_show", [to_coq(case, obs)]))
         return 0
-    ok = core.proof_stage(ctx, ["Props/C01.vo", "Props/C01Gen.vo"], gen_needed=("BitFns", "Bipartition"))
+    ok = core.proof_stage(ctx, ["Props/C01.vo", "Props/C01Gen.vo"], gen_needed=("BitFns", "Bipartition", "SuppObj"))
     if gen_overwritten():
         # another check running concurrently regenerates coq/Gen from its own DV_REPO: build again
         ctx.notes.append("coq/Gen/Bipartition.v was overwritten by a concurrent run during the build; proof stage repeated")
         ctx.obligations = []
-        ok = core.proof_stage(ctx, ["Props/C01.vo", "Props/C01Gen.vo"], gen_needed=("BitFns", "Bipartition"))
+        ok = core.proof_stage(ctx, ["Props/C01.vo", "Props/C01Gen.vo"], gen_needed=("BitFns", "Bipartition", "SuppObj"))
         if gen_overwritten():
             ctx.obligation("coq/Gen/Bipartition.v stable during the build (no concurrent regeneration)", False)
             ok = False
@@ -850,7 +861,9 @@ def run(tier, seed, replay=None):
                 if st[0] == "enc":
                     ctx.count("hist:suppress_storage=%s" % st[3])
                     ctx.count("hist:is_bipartitions_mutable=%s" % st[4])
-            ctx.count("hist:encodings=%d" % sum(1 for st in c["steps"] if st[0] != "edit"))
+            ctx.count("hist:encodings=%d" % sum(1 for st in c["steps"] if st[0] not in ("edit", "supp")))
+            if c.get("supp"):
+                ctx.count("hist:unifurcations-kept-then-suppressed")
         if c["kind"] in ("enc", "from", "hist"):
             ctx.count("shape:" + c["shape"])
             ctx.count("rooted:%s" % c["rooted"])
@@ -881,7 +894,7 @@ def run(tier, seed, replay=None):
         rule="random rose trees with 1-40 leaves (binary / polytomy / mixed / caterpillar / star / single node, "
              "optional unifurcations, missing lengths, occasionally a taxon-less or duplicate-taxon leaf), is_rooted "
              "in {True, False, None}, namespaces with vacated accession indices / extra members / sorted; "
-             "namespace histories before encoding (bits cached by taxon_bitmask / an encoded tree, members removed and the same Taxon object re-added); encodings left behind by reroot_at_node / reroot_at_edge / reseed_at / to_outgroup_position / prune_taxa / retain_taxa / prune_subtree called with update_bipartitions=True (every stored mask compared with the naive recomputation for the tree's current structure, rooting flag and namespace; leafset_taxa() decoding); encode_bipartitions once or twice with suppress_unifurcations / collapse_unrooted_basal_bifurcation each False in ~25% of the cases, in ~25% of the cases through update_bipartitions and/or with suppress_storage=True (bipartitions then read from the edges) / is_bipartitions_mutable=True, tree-level compatibility probes; object-level HISTORIES on one tree (3-12 leaves): encode (all four keywords, either entry point), keep what was returned (the list object; with suppress_storage the objects on the edges), edit the tree (SPR, reroot_at_node / reseed_at / reroot_at_edge / to_outgroup_position with update_bipartitions=False, Edge.collapse, prune a leaf, child shuffle, a new node in an edge) or call reroot_at_node / reroot_at_edge / reseed_at / prune_taxa / retain_taxa / prune_subtree with update_bipartitions=True, encode again, ...; after EVERY step the identity (token by first sight, objects kept alive) and all six attributes of every Bipartition reachable from the edges, from bipartition_encoding and from every saved list are observed and compared with the model up to renaming of identities; oracle: masks exact after each encoding, a saved encoding never changes (objects and masks), an encoding consists of new objects, each saved encoding still rebuilds (shuffled, from_bipartition_encoding) the topology it was taken from; rebuild from shuffled encodings, "
+             "namespace histories before encoding (bits cached by taxon_bitmask / an encoded tree, members removed and the same Taxon object re-added); encodings left behind by reroot_at_node / reroot_at_edge / reseed_at / to_outgroup_position / prune_taxa / retain_taxa / prune_subtree called with update_bipartitions=True (every stored mask compared with the naive recomputation for the tree's current structure, rooting flag and namespace; leafset_taxa() decoding); encode_bipartitions once or twice with suppress_unifurcations / collapse_unrooted_basal_bifurcation each False in ~25% of the cases, in ~25% of the cases through update_bipartitions and/or with suppress_storage=True (bipartitions then read from the edges) / is_bipartitions_mutable=True, tree-level compatibility probes; object-level HISTORIES on one tree (3-12 leaves): encode (all four keywords, either entry point), keep what was returned (the list object; with suppress_storage the objects on the edges), edit the tree (SPR, reroot_at_node / reseed_at / reroot_at_edge / to_outgroup_position with update_bipartitions=False, Edge.collapse, prune a leaf, child shuffle, a new node in an edge) or call reroot_at_node / reroot_at_edge / reseed_at / prune_taxa / retain_taxa / prune_subtree with update_bipartitions=True, encode again, ...; wave 8: histories on trees WITH outdegree-one nodes (above internal nodes, leaves, the root, in chains) that encode with suppress_unifurcations=False and then call suppress_unifurcations(update_bipartitions=True) - the operation that maintains the stored list by dropping the removed nodes' objects - possibly after further edits (new nodes inside edges) and encodings (oracle: no outdegree-one node left, the maintained list holds exactly one object per edge with exact masks, its split set is that of a fresh encoding, saved lists unchanged, a tree rebuilt from the maintained list has the tree's clades); after EVERY step the identity (token by first sight, objects kept alive) and all six attributes of every Bipartition reachable from the edges, from bipartition_encoding and from every saved list are observed and compared with the model up to renaming of identities; oracle: masks exact after each encoding, a saved encoding never changes (objects and masks), an encoding consists of new objects, each saved encoding still rebuilds (shuffled, from_bipartition_encoding) the topology it was taken from; rebuild from shuffled encodings, "
              "encodings with noise and random mask lists; static bit predicates on random mask triples (incl. "
              "negative masks); Bipartition objects built from random masks; thorough adds every shape <= 6 leaves "
              "x 3 rootings x 3 accession maps. A tree case is non-trivial with >= 4 retained edges (enc) or >= 3 "
